@@ -18,6 +18,11 @@ def cases(tier):
                                                                          'rng': ['sym', 'zero'][(n + x + cap) % 2]}],
                        'actions': ['RecoverAndVerify', 'RecoverOnly', 'VerifyOnly']}
                 out.append({'cfg': cfg, 'name': 'n%d x%d cap%d' % (n, x, cap)})
+    # masks with zero entries (a single zero component, several, the all-zero mask) are masks like any other
+    for (n, x, zc) in [(8, 1, [0]), (8, 2, [1]), (2, 3, [0, 2]), (64, 6, [0, 5]), (4, 2, [0, 1])]:
+        cfg = {'scenario': 'batch', 'n': n, 'x': x, 'members': [{'m': 1, 'cap': 2, 'seeded': True, 'values': 'sym', 'zero_blinding_components': zc}],
+               'actions': ['RecoverAndVerify', 'RecoverOnly', 'VerifyOnly']}
+        out.append({'cfg': cfg, 'name': 'n%d x%d zero blinding components %s' % (n, x, zc)})
     # batch compositions: seeded / unseeded / aggregated members in every order
     kinds = [{'m': 1, 'cap': 1, 'seeded': True}, {'m': 1, 'cap': 2, 'seeded': False}, {'m': 2, 'cap': 2, 'seeded': False}, {'m': 1, 'cap': 4, 'seeded': True}]
     combos = [[0, 1], [0, 2], [0, 1, 2], [0, 3, 1]] if tier == 'quick' else [[0, 1], [0, 2], [0, 1, 2], [0, 3, 1], [0, 1, 2, 3], [3, 3, 2]]
